@@ -23,6 +23,9 @@ type OsFile struct {
 	fdName string
 }
 
+// File is an alias used for EMBEDDED fields (`*os.File` embedded in a struct keeps the field name File).
+type File = OsFile
+
 type inodeKey struct{ dev, ino uint64 }
 
 type lockState struct {
@@ -137,7 +140,7 @@ func flagStr(flag int) string {
 		n string
 	}{{os.O_CREATE, "CREATE"}, {os.O_TRUNC, "TRUNC"}, {os.O_EXCL, "EXCL"}, {os.O_APPEND, "APPEND"}} {
 		if flag&p.f != 0 {
-			s += "|" + p.n
+			s += "+" + p.n
 		}
 	}
 	return s
